@@ -25,6 +25,7 @@ const (
 )
 
 type referrerKey struct {
+	repo         string
 	dig          digest.Digest
 	artifactType string
 }
@@ -65,7 +66,7 @@ func (s *Server) referrerGet(repoStr, arg string) http.HandlerFunc {
 				_ = types.ErrRespJSON(w, types.ErrInfoUnsupported("requested digest is not valid"))
 				return
 			}
-			if cacheResp, err := s.referrerCache.Get(referrerKey{dig: dig, artifactType: filterAT}); err == nil && page < len(cacheResp) {
+			if cacheResp, err := s.referrerCache.Get(referrerKey{repo: repoStr, dig: dig, artifactType: filterAT}); err == nil && page < len(cacheResp) {
 				if page+1 < len(cacheResp) {
 					next := r.URL
 					q := next.Query()
@@ -107,7 +108,7 @@ func (s *Server) referrerGet(repoStr, arg string) http.HandlerFunc {
 			return
 		}
 		// check page cache for digest, two users requesting same referrer list
-		if cacheResp, err := s.referrerCache.Get(referrerKey{dig: d.Digest, artifactType: filterAT}); err == nil {
+		if cacheResp, err := s.referrerCache.Get(referrerKey{repo: repoStr, dig: d.Digest, artifactType: filterAT}); err == nil {
 			if page >= len(cacheResp) {
 				page = 0
 			}
@@ -166,7 +167,7 @@ func (s *Server) referrerGet(repoStr, arg string) http.HandlerFunc {
 				return
 			}
 			// cache the split
-			s.referrerCache.Set(referrerKey{dig: d.Digest, artifactType: filterAT}, split)
+			s.referrerCache.Set(referrerKey{repo: repoStr, dig: d.Digest, artifactType: filterAT}, split)
 			// set the requested page output and next link
 			if page > 0 && (cacheDig != d.Digest.String() || page >= len(split)) {
 				page = 0
@@ -182,7 +183,7 @@ func (s *Server) referrerGet(repoStr, arg string) http.HandlerFunc {
 			out = split[page]
 		} else {
 			// cache the result
-			s.referrerCache.Set(referrerKey{dig: d.Digest, artifactType: filterAT}, [][]byte{out})
+			s.referrerCache.Set(referrerKey{repo: repoStr, dig: d.Digest, artifactType: filterAT}, [][]byte{out})
 		}
 		w.Header().Add("content-length", fmt.Sprintf("%d", len(out)))
 		w.WriteHeader(http.StatusOK)
